@@ -255,23 +255,34 @@ func checkC18(c *Ctx, r *Report) {
 	r.Rule("C18-label", 1, "charset label equals the charset used")
 	if fn := c.Func(pkg, "(*Message).SetBodyWithCharset"); fn != nil {
 		o := r.Add("C18-label", fnName(fn), "Content-Type charset vs translation charset", c.pos(fn.Pos()))
+		// the call of StringToBody and the charset parameter of Content-Type, in SetBodyWithCharset or
+		// in the same-package code it runs (values rewritten into the caller's terms: ip_i2.go)
+		useds, labels := i2CharsetUses(fn)
 		var used, label ssa.Value
-		for _, ci := range callsTo(fn, false, "fbb.StringToBody") {
-			used = ci.Common().Args[1]
-		}
-		eachInstr(fn, func(_ *ssa.BasicBlock, _ int, in ssa.Instruction) {
-			if mu, ok := in.(*ssa.MapUpdate); ok {
-				if k, _ := constString(mu.Key); k == "charset" {
-					label = mu.Value
+		agree := len(useds) > 0 && len(labels) > 0
+		for _, u := range useds {
+			for _, l := range labels {
+				us, uok := constString(u)
+				ls, lok := constString(l)
+				same := u == l || (uok && lok && strings.EqualFold(us, ls))
+				if used == nil || (agree && !same) {
+					used, label = u, l // the first pair, or the first that disagrees
+				}
+				if !same {
+					agree = false
 				}
 			}
-		})
-		us, uok := constString(used)
-		ls, lok := constString(label)
+		}
+		if len(useds) > 0 && used == nil {
+			used = useds[0]
+		}
+		if len(labels) > 0 && label == nil {
+			label = labels[0]
+		}
 		switch {
 		case used == nil || label == nil:
 			o.Bad("could not identify the charset passed to StringToBody and the charset parameter of Content-Type")
-		case used == label || (uok && lok && strings.EqualFold(us, ls)):
+		case agree:
 			o.OK("both are %s", pathOf(used))
 		default:
 			o.Bad("the body is translated to %s but Content-Type announces %s", pathOf(used), pathOf(label))
@@ -290,75 +301,28 @@ func sizeRule(c *Ctx, r *Report, rule string) {
 		return
 	}
 	o := r.Add(rule, fnName(fn), "Body header = len(stored body)", c.pos(fn.Pos()))
-	var stored ssa.Value
-	var stores []*ssa.Store
-	eachInstr(fn, func(_ *ssa.BasicBlock, _ int, in ssa.Instruction) {
-		if st, ok := in.(*ssa.Store); ok && strings.HasSuffix(pathOf(st.Addr), ".body") {
-			stored = st.Val
-			stores = append(stores, st)
-		}
-	})
+	// the stores to Message.body in the anchored function and in the same-package code it runs
+	// (helpers, local closures, method values: ip_i2.go)
+	a := newI2Sizes(fn)
+	stores := a.stores()
 	// every store of a body is followed, on every path to a return, by the update of the Body header
-	// with the length of that very value (an early return that only stores leaves a stale size)
-	for _, st := range stores {
-		var sets []ssa.CallInstruction
-		for _, ci := range callsTo(fn, false, "fbb.Header.Set") {
-			if k, _ := constString(ci.Common().Args[1]); k != "Body" {
-				continue
-			}
-			v := st.Val
-			if dependsOn(ci.Common().Args[2], func(x ssa.Value) bool {
-				call, ok := x.(*ssa.Call)
-				return ok && callName(&call.Call) == "builtin.len" && call.Call.Args[0] == v
-			}) {
-				sets = append(sets, ci)
-			}
-		}
-		okAll := true
-		for _, ret := range returnsOf(fn) {
-			if !instrReaches(st, ret) {
-				continue
-			}
-			// a path condition, not dominance of the update over the return: a single-exit function
-			// `if err == nil { store; update }; return err` updates on every path through the store
-			if !g8FollowedOrPreceded(st, ret, sets) {
-				okAll = false
-			}
-		}
-		r.Check(rule, fnName(fn), "store to Message.body at "+c.exprAt(fn, st.Pos()), c.pos(st.Pos()), okAll,
+	// with the length of that very value (an early return that only stores leaves a stale size);
+	// for a store in a helper: in the helper, or after the call at every call that leads to it
+	for _, s := range stores {
+		g := s.st.Parent()
+		// a path condition, not dominance of the update over the return: a single-exit function
+		// `if err == nil { store; update }; return err` updates on every path through the store
+		r.Check(rule, fnName(g), "store to Message.body at "+c.exprAt(g, s.st.Pos()), c.pos(s.st.Pos()), a.storeOK(s),
 			"every return after this store follows Header.Set(Body, len(value stored))", "the body is replaced here but a return can be reached without updating the Body header to the new length (e.g. an early return for an empty text after a longer one): the header keeps the old size and the serialised message cannot be parsed")
 	}
-	good := false
-	for _, ci := range callsTo(fn, false, "fbb.Header.Set") {
-		if k, _ := constString(ci.Common().Args[1]); k != "Body" {
-			continue
-		}
-		val := ci.Common().Args[2]
-		fmtOK := false
-		lenOK := dependsOn(val, func(v ssa.Value) bool {
-			if call, ok := v.(*ssa.Call); ok {
-				if callName(&call.Call) == "fmt.Sprintf" {
-					if s, _ := constString(call.Call.Args[0]); s == "%d" {
-						fmtOK = true
-					}
-				}
-				if callName(&call.Call) == "strconv.Itoa" {
-					fmtOK = true
-				}
-				if callName(&call.Call) == "builtin.len" && stored != nil && call.Call.Args[0] == stored {
-					return true
-				}
-			}
-			return false
-		})
-		if lenOK && fmtOK {
-			good = true
-		}
-	}
+	// every path on which the anchored function reports success passes a store
+	_, stored := a.summary(fn, nil)
 	switch {
-	case stored == nil:
+	case len(stores) == 0:
 		o.Bad("SetBodyWithCharset does not store the body")
-	case good:
+	case !stored:
+		o.Bad("SetBodyWithCharset can return a nil error without having stored the body (no store to Message.body, directly or in a helper it calls, on some path to such a return)")
+	case a.anyMarked:
 		o.OK("Header.Set(Body, decimal len(x)) where x is the value stored in Message.body")
 	default:
 		o.Bad("the Body header is not the decimal length of the value stored as body: a reader would cut the body at the wrong place")
@@ -570,31 +534,17 @@ func checkC09(c *Ctx, r *Report) {
 		r.Fail("C09-sizes", "anchor AddFile not found")
 	} else {
 		o := r.Add("C09-sizes", fnName(fn), "File header = len(attachment data)", c.pos(fn.Pos()))
+		// the File header, wherever below AddFile it is added and in whatever idiom its value is put
+		// together (Sprintf, concatenation, a helper): <decimal f.Size()> " " <name> (ip_i2.go)
 		f := fn.Params[1]
-		appended := false
-		for _, ci := range callsTo(fn, false, "builtin.append") {
-			if dependsOn(ci.Common().Args[1], func(v ssa.Value) bool { return v == ssa.Value(f) }) {
-				appended = true
+		w := &i2Words{c: c, pkg: pkg}
+		appended := w.appended(fn, f)
+		values := w.fileValues(fn)
+		sized := len(values) > 0
+		for _, fv := range values {
+			if !fv.shape || !w.dataLenOf(fv.parts[0], f) {
+				sized = false
 			}
-		}
-		sized := false
-		for _, ci := range callsTo(fn, false, "fbb.Header.Add") {
-			if k, _ := constString(ci.Common().Args[1]); k != "File" {
-				continue
-			}
-			dependsOn(ci.Common().Args[2], func(v ssa.Value) bool {
-				if call, ok := v.(*ssa.Call); ok && callName(&call.Call) == "fmt.Sprintf" {
-					if s, _ := constString(call.Call.Args[0]); strings.HasPrefix(s, "%d ") {
-						if dependsOn(call.Call.Args[1], func(x ssa.Value) bool {
-							sc, ok := x.(*ssa.Call)
-							return ok && callName(&sc.Call) == "fbb.File.Size" && sc.Call.Args[0] == ssa.Value(f)
-						}) {
-							sized = true
-						}
-					}
-				}
-				return false
-			})
 		}
 		sz := c.Func(pkg, "(*File).Size")
 		lenData := false
@@ -613,44 +563,23 @@ func checkC09(c *Ctx, r *Report) {
 	}
 
 	// ---- C09-charset
-	r.Rule("C09-charset", 3, "Q-encoding label equals the transcoding charset")
-	nEnc := 0
+	// floor: by role, not by call site (below) - one helper may serve the subject and the file name
+	r.Rule("C09-charset", 1, "Q-encoding label equals the transcoding charset")
+	words := &i2Words{c: c, pkg: pkg}
 	for _, fn := range c.SrcFuncs(pkg) {
 		for _, ci := range callsTo(fn, false, "mime.WordEncoder.Encode") {
-			nEnc++
-			label, lok := constString(ci.Common().Args[1])
-			x := ci.Common().Args[2]
-			var trans *ssa.Call
-			dependsOn(x, func(v ssa.Value) bool {
-				if ex, ok := v.(*ssa.Extract); ok {
-					v = ex.Tuple
-				}
-				if call, ok := v.(*ssa.Call); ok && callName(&call.Call) == "fbb.toCharset" {
-					trans = call
-					return true
-				}
-				return false
-			})
 			o := r.Add("C09-charset", fnName(fn), "QEncoding.Encode "+c.exprAt(fn, ci.Pos()), c.pos(ci.Pos()))
-			switch {
-			case !lok:
-				o.Bad("the charset label is not a constant (unresolved)")
-			case trans != nil:
-				cs, cok := constString(trans.Call.Args[0])
-				if cok && strings.EqualFold(cs, label) {
-					o.OK("operand transcoded to %s, labelled %s", cs, label)
-				} else {
-					o.Bad("the operand is transcoded to %s but labelled %q: decoders interpret the bytes in the wrong charset", pathOf(trans.Call.Args[0]), label)
-				}
-			case strings.EqualFold(label, "utf-8"):
-				o.OK("operand is not transcoded and labelled utf-8 (Go strings are UTF-8)")
-			default:
-				o.Bad("the operand is a raw Go (UTF-8) string but labelled %q", label)
+			if good, why := words.charsetVerdict(ci); good {
+				o.OK("%s", why)
+			} else {
+				o.Bad("%s", why)
 			}
 		}
 	}
-	if nEnc < 3 {
-		r.Fail("C09-charset", "found %d Q-encoding sites in package fbb, expected at least 3", nEnc)
+	for _, role := range words.charsetRoles() {
+		if role.encodes == 0 {
+			r.Fail("C09-charset", "no Q-encoding found for the %s: each of the three places confirmed by reading must pass through QEncoding.Encode (anchor drift or vacuous rule)", role.name)
+		}
 	}
 
 	// ---- C09-date
@@ -999,54 +928,33 @@ func c09Extra2(c *Ctx, r *Report, prefix string) {
 	}
 	// ---- every name/subject put into a header is word-encoded on every path
 	r.Rule("C09-encoded", 2, "attachment names and subjects are word-encoded on every path")
-	allThrough := func(v ssa.Value, pred func(*ssa.Call) bool) bool {
-		seen := map[ssa.Value]bool{}
-		var walk func(v ssa.Value, d int) bool
-		walk = func(v ssa.Value, d int) bool {
-			if d > 8 || seen[v] {
-				return true
-			}
-			seen[v] = true
-			switch x := v.(type) {
-			case *ssa.Call:
-				return pred(x)
-			case *ssa.Phi:
-				for _, e := range x.Edges {
-					if !walk(e, d+1) {
-						return false
-					}
-				}
-				return true
-			case *ssa.UnOp:
-				if o := origin(x); o != ssa.Value(x) {
-					return walk(o, d+1)
-				}
-			case *ssa.MakeInterface:
-				return walk(x.X, d+1)
-			case *ssa.Extract:
-				if call, ok := x.Tuple.(*ssa.Call); ok {
-					return pred(call)
-				}
-			}
-			return false
-		}
-		return walk(v, 0)
-	}
-	isEncode := func(call *ssa.Call) bool { return strings.HasSuffix(callName(&call.Call), "mime.WordEncoder.Encode") }
+	// the header that plays the role is found by its constant key in the anchored function and in the
+	// same-package code it runs; "went through Encode" is followed into the results of helpers and
+	// through their parameters (ip_i2.go)
+	words := &i2Words{c: c, pkg: pkg}
 	if fn := c.Func(pkg, "(*Message).AddFile"); fn != nil {
-		for _, ci := range callsTo(fn, false, "fmt.Sprintf") {
-			args, ok := variadicArgs(ci.Common().Args[1])
-			if !ok || len(args) < 2 {
-				continue
-			}
-			r.Check("C09-encoded", fnName(fn), "attachment name in the File header", c.pos(ci.Pos()), allThrough(args[len(args)-1], isEncode),
+		values := words.fileValues(fn)
+		for _, fv := range values {
+			r.Check("C09-encoded", fnName(fv.sink.call.Parent()), "attachment name in the File header", c.pos(fv.pos()), words.nameEncoded(fv, nil),
 				"the name is the result of QEncoding.Encode on every path", "the attachment name can reach the File header without going through QEncoding.Encode (e.g. an 'ASCII fast path'): Encode also escapes control characters, so a name containing CR/LF or NUL breaks the header block (or injects a header)")
+		}
+		if len(values) == 0 {
+			r.Fail("C09-encoded", "no File header is added in Message.AddFile or the code it calls (role unresolved)")
 		}
 	}
 	if fn := c.Func(pkg, "(*Message).SetSubject"); fn != nil {
-		for _, ci := range callsTo(fn, false, "fbb.Header.Set") {
-			r.Check("C09-encoded", fnName(fn), "subject header", c.pos(ci.Pos()), allThrough(ci.Common().Args[2], isEncode),
+		found := false
+		for _, s := range words.sinks(fn, "Subject") {
+			// the Subject header wherever it is set, and (as before) whatever SetSubject itself sets
+			if !s.keyed && !(len(s.chain) == 0 && callName(s.call.Common()) == "fbb.Header.Set") {
+				continue
+			}
+			found = found || s.keyed
+			r.Check("C09-encoded", fnName(s.call.Parent()), "subject header", c.pos(s.call.Pos()), words.through(s.call.Common().Args[2], s.chain, nil),
 				"the subject is the result of QEncoding.Encode on every path", "the subject can reach the header without going through QEncoding.Encode")
+		}
+		if !found {
+			r.Fail("C09-encoded", "no Subject header is set in Message.SetSubject or the code it calls (role unresolved)")
 		}
 	}
 	// ---- serialised bytes belong to the caller
